@@ -56,6 +56,10 @@ def make_case(rng, i, tier):
                                                lmax=40),
                          "extra": gen.rand_extras(rng, rng.randint(0, 2), 100, kinds=("cc", "ts", "pc")),
                          "start": rng.choice(["abs", "rel", "both"])} for _ in range(2)]
+        for sp in case["pool"]:
+            if rng.random() < 0.35:
+                # never-released notes (their length is imputed by the library wherever notes are paired)
+                sp["hanging"] = [[0, rng.choice([70, 71]), rng.randrange(0, 120), 90] for _ in range(rng.randint(1, 2))]
         case["ops"] = [{"op": rng.choice(CHAIN), "s": rng.randrange(2), "a": rng.randrange(1, 60), "k": rng.randint(1, 4)}
                        for _ in range(rng.randint(2, 9))]
     return case
